@@ -22,6 +22,7 @@
 #include <forward_list>
 #include <limits>
 #include <stdexcept>
+#include <condition_variable>
 #if VRT_ASAN
 #include <sanitizer/lsan_interface.h>
 #endif
@@ -773,6 +774,54 @@ static void run_top(uint64_t seed) {
     Scn s(seed); init_scn(s); run_leaf(s);
 }
 
+// ------------------------------------------------------------------------------------------------ persistent threads
+// keeps the current arena hot (see vrt::Keeper); one thread for the whole process, pointed at the arena of the batch
+struct MyKeeper {
+    std::atomic<tbb::task_arena*> cur{nullptr}; std::atomic<bool> stop{false}; std::atomic<long> enq{0}, ran{0}; std::thread th;
+    void start() {
+        th = std::thread([this] {
+            while (!stop.load(std::memory_order_relaxed)) {
+                tbb::task_arena* a = cur.load(std::memory_order_acquire);
+                if (a && enq.load(std::memory_order_relaxed) - ran.load(std::memory_order_relaxed) < 256)
+                    for (int i = 0; i < 4; i++) { enq.fetch_add(1, std::memory_order_relaxed); a->enqueue([this] { spin_iters(300); ran.fetch_add(1, std::memory_order_release); }); }
+                sleep_us(40);
+            }
+        });
+    }
+    void finish() { stop.store(true); th.join(); double t0 = now_s(); while (ran.load(std::memory_order_acquire) < enq.load() && now_s() - t0 < 60) sleep_us(200); }
+};
+struct Batch { tbb::task_arena* A = nullptr; long size = 0; uint64_t bseed = 0; int active = 1; std::atomic<long> next{0}; const std::vector<int>* ids = nullptr; };
+static void run_batch(Batch& b, int d) {
+    Rng r(mix(b.bseed, (uint64_t)d));
+    for (;;) {
+        long k = b.next.fetch_add(1); if (k >= b.size) break;
+        if (d == 0) perturb_random(r, *b.ids);
+        uint64_t seed = mix(b.bseed, 1000 + (uint64_t)k);
+        b.A->execute([seed] { run_top(seed); });
+    }
+}
+struct Drivers {                 // driver 0 is the main thread; drivers 1.. are created once and parked between batches
+    std::mutex m; std::condition_variable cv_start, cv_done; uint64_t gen = 0; int running = 0; bool quit = false; Batch* b = nullptr; std::vector<std::thread> th;
+    void start(int n) {
+        for (int i = 0; i < n; i++) th.emplace_back([this, i] {
+            uint64_t seen = 0;
+            for (;;) {
+                Batch* bb;
+                { std::unique_lock<std::mutex> l(m); while (!quit && gen == seen) cv_start.wait_for(l, std::chrono::milliseconds(50)); if (quit) return; seen = gen; bb = b; }
+                if (i + 1 < bb->active) run_batch(*bb, i + 1);
+                { std::lock_guard<std::mutex> l(m); if (--running == 0) cv_done.notify_all(); }
+            }
+        });
+    }
+    void run(Batch& bb) {
+        { std::lock_guard<std::mutex> l(m); b = &bb; running = (int)th.size(); gen++; }
+        cv_start.notify_all();
+        run_batch(bb, 0);
+        std::unique_lock<std::mutex> l(m); while (running) cv_done.wait_for(l, std::chrono::milliseconds(50));
+    }
+    void finish() { { std::lock_guard<std::mutex> l(m); quit = true; } cv_start.notify_all(); for (auto& t : th) t.join(); }
+};
+
 int main(int argc, char** argv) {
     Args a = standard_init(argc, argv, "c05");
     Result& R = result();
@@ -789,14 +838,23 @@ int main(int argc, char** argv) {
     tbb::global_control gc(tbb::global_control::max_allowed_parallelism, 16);
     g_pool = new PartPool();
 
+    // No thread may exit while the watchdog runs (vrt's spin-stall test misreads an exited thread as one that burnt
+    // CPU for ever), so the keeper and the drivers are created once; arenas are kept alive as well.
+    MyKeeper keeper; keeper.start();
+    Drivers drv; drv.start(maxdrivers - 1);
     WatchdogCfg wc;
-    watchdog_start(wc, [&](const HangInfo& hi) {
+    std::function<void(const HangInfo&)> on_hang = [&](const HangInfo& hi) {
         std::string d = "a parallel loop did not return: no progress for " + std::to_string(hi.stalled_for) + "s; threads: " + hi.threads + "\n" + rings_dump();
+        if (hi.spin_stall && hi.stalled_for < wc.spin_cpu_s) {      // cannot be genuine: nobody can have burnt spin_cpu_s of CPU yet
+            fprintf(stderr, "[c05] watchdog: ignoring a spin-stall verdict after %.1fs\n", hi.stalled_for); R.stat("watchdog_premature_spin_verdicts"); progress();
+            watchdog_start(wc, on_hang); return;
+        }
         if (!hi.quiescent && !hi.spin_stall) { R.inconclusive++; fprintf(stderr, "[c05] watchdog: inconclusive stall\n%s\n", d.c_str()); R.finish_and_exit(4); }
         // bodies never block, so a loop that has not returned while nobody can run any more (or everybody spins) lost work
         R.violation(hi.quiescent ? "c05.hang.quiescent" : "c05.hang.spin-stall", d, "{}");
         R.finish_and_exit(3);
-    });
+    };
+    watchdog_start(wc, on_hang);
 
     long done = 0;
     while (done < cases) {
@@ -806,30 +864,16 @@ int main(int argc, char** argv) {
         static std::map<int, tbb::task_arena*>* arenas = new std::map<int, tbb::task_arena*>();
         tbb::task_arena*& ap = (*arenas)[conc * 2 + reserved];
         if (!ap) { ap = new tbb::task_arena(conc, reserved); ap->initialize(); }
-        tbb::task_arena& A = *ap;
-        std::unique_ptr<Keeper> keeper;
-        if (hot && conc > 1) keeper.reset(new Keeper(A, 4, 40));
-        int drivers = 1 + (int)top.below(maxdrivers);
-        long batch = std::min<long>(cases - done, 60 + (long)top.below(120));
-        std::atomic<long> next{0};
-        uint64_t bseed = top.next();
-        std::vector<std::thread> th;
-        for (int d = 0; d < drivers; d++) th.emplace_back([&, d] {
-            Rng r(mix(bseed, d));
-            for (;;) {
-                long k = next.fetch_add(1); if (k >= batch) break;
-                if (d == 0) perturb_random(r, ids);
-                uint64_t seed = mix(bseed, 1000 + (uint64_t)k);
-                A.execute([seed] { run_top(seed); });
-            }
-        });
-        for (auto& t : th) t.join();
-        done += batch;
-        keeper.reset();
+        Batch bb; bb.A = ap; bb.active = 1 + (int)top.below(maxdrivers); bb.size = std::min<long>(cases - done, 60 + (long)top.below(120)); bb.bseed = top.next(); bb.ids = &ids;
+        keeper.cur.store(hot && conc > 1 ? ap : nullptr, std::memory_order_release);
+        drv.run(bb);
+        done += bb.size;
+        keeper.cur.store(nullptr, std::memory_order_release);
         perturb().clear();
         R.stat("batches");
     }
     watchdog_stop();
+    drv.finish(); keeper.finish();
     for (int c = 0; c <= C_NEST; c++) R.stat(std::string("class_") + class_name[c], g_t.by_class[c].load());
     static const char* pn[] = { "simple", "auto", "static", "affinity", "default" };
     for (int p = 0; p < 5; p++) { R.stat(std::string("part_") + pn[p], g_t.by_part[p].load()); R.stat(std::string("part_") + pn[p] + "_multithread", g_t.by_part_multi[p].load()); }
